@@ -901,6 +901,25 @@ func (f *FnEnc) ensureCallOrd() {
 	}
 }
 
+// mapUpdateOrd: the ordinal (from 1, source order) of a map store among the map stores of the function.
+func (f *FnEnc) mapUpdateOrd(mu *ssa.MapUpdate) int {
+	var all []*ssa.MapUpdate
+	for _, b := range f.fn.Blocks {
+		for _, ins := range b.Instrs {
+			if m, ok := ins.(*ssa.MapUpdate); ok {
+				all = append(all, m)
+			}
+		}
+	}
+	sort.SliceStable(all, func(i, j int) bool { return all[i].Pos() < all[j].Pos() })
+	for i, m := range all {
+		if m == mu {
+			return i + 1
+		}
+	}
+	return 0
+}
+
 // checkAts: obligations attached to program points by the function's contract (check-at).
 func (f *FnEnc) checkAts(ins ssa.Instruction, callee string) {
 	if !f.top || f.spec == nil || len(f.spec.CheckAts) == 0 {
@@ -908,7 +927,15 @@ func (f *FnEnc) checkAts(ins ssa.Instruction, callee string) {
 	}
 	for _, ca := range f.spec.CheckAts {
 		match := false
-		if ca.Send {
+		if mu, ok := ins.(*ssa.MapUpdate); ok {
+			if ca.MapUpdate == -1 {
+				match = true
+			} else if ca.MapUpdate > 0 {
+				match = f.mapUpdateOrd(mu) == ca.MapUpdate
+			}
+		} else if ca.MapUpdate != 0 {
+			match = false
+		} else if ca.Send {
 			_, match = ins.(*ssa.Send)
 		} else if callee != "" {
 			want := ca.Callee
@@ -939,6 +966,11 @@ func (f *FnEnc) checkAts(ins ssa.Instruction, callee string) {
 					extra[fmt.Sprintf("arg%d", i)] = binding{f.val(a), a.Type()}
 				}()
 			}
+		}
+		if mu, ok := ins.(*ssa.MapUpdate); ok {
+			extra["map"] = binding{f.val(mu.Map), mu.Map.Type()}
+			extra["key"] = binding{f.val(mu.Key), mu.Key.Type()}
+			extra["value"] = binding{f.val(mu.Value), mu.Value.Type()}
 		}
 		ctx := f.specCtx(f.st, f.blk, extra)
 		ctx.atReturn = true
